@@ -576,7 +576,7 @@ func checkRanges(c *Check) {
 
 	// R7.5c
 	exemptC := map[string]string{
-		"compiler.compileWithImportsRec":              "diagnostic for a failing filepath.Abs (environment failure, no source position exists)",
+		"compiler.compileWithImportsRec":               "diagnostic for a failing filepath.Abs (environment failure, no source position exists)",
 		"compiler.(*compiler).addExternalDependencies": "diagnostic for a failing filepath.Abs (environment failure, no source position exists)",
 	}
 	for _, rel := range pipelinePkgs {
